@@ -375,6 +375,32 @@ async fn scenario_two_honest(sim: Arc<Sim>, unit: Value) -> Obs {
         other => viol!("honest-peer-rejected", "{ctx} rpc V->W failed: {:?}", other.map(|r| r.map(|_| ()).map_err(|e| e.to_string()))),
     }
     let _ = tokio::time::timeout(ms(2_000), w.rpc(vid, Sim::request("w-to-v"))).await;
+    // a request OBJECT that already carries connection metadata naming X (what a relay holds
+    // when it forwards an inbound request it got from X): neither the identity the handler
+    // sees nor the one the response comes back with is taken from it
+    for via_peer in [false, true] {
+        let req = Sim::request(if via_peer { "v-to-w-relayed-peer" } else { "v-to-w-relayed" })
+            .with_extension(xid)
+            .with_extension(anemo::ConnectionOrigin::Inbound)
+            .with_extension(anemo::Direction::Inbound)
+            .with_extension(x.local_addr());
+        let r = if via_peer {
+            match v.peer(wid) {
+                Some(mut p) => tokio::time::timeout(ms(2_000), p.rpc(req)).await,
+                None => continue,
+            }
+        } else {
+            tokio::time::timeout(ms(2_000), v.rpc(wid, req)).await
+        };
+        match r {
+            Ok(Ok(resp)) => {
+                if resp.peer_id() != Some(&wid) {
+                    viol!("impersonation", "{ctx} V called W with a request object that carried X's identity among its extensions (a relayed inbound request): the response of W is attributed to {:?}", resp.peer_id().map(|p| sim.label(p)));
+                }
+            }
+            other => viol!("honest-peer-rejected", "{ctx} rpc V->W with a relayed request object failed: {:?}", other.map(|r| r.map(|_| ()).map_err(|e| e.to_string()))),
+        }
+    }
     for r in sim.svc.requests.lock().unwrap().iter() {
         let expect = if r.node == nv { Some(wid) } else if r.node == nw { Some(vid) } else { None };
         if expect.is_some() && r.peer_id != expect {
@@ -618,7 +644,7 @@ impl Check for C01 {
         CheckMeta {
             property: "C01",
             level: "fault_enumeration",
-            rule: "verifier layer: honest, replayed, re-signed, non-Ed25519, expired, not-yet-valid, wrong-EKU, wrong-name, concatenated certificates, every truncation and every single-byte substitution (5 values quick / all 255 thorough) of a valid certificate, offered to the client verifier, the server verifier (with and without an attached intermediate, pinned to X and to Y) and peer_id_from_certificate, against a ring + x509-parser reference; handshake-signature verifiers on all 65536 scheme codes x {right, wrong key}, every single-bit flip of a valid signature and every single-byte change of the message, for all three verifier types; system layer: adversary role {dials, is dialed, is dialed with pin X, with pin Y, is dialed with pin Y (or none) and then - with or without a disconnect in between - with pin X} x 9 presented identities x {complete, stall before the acknowledgement, close early}, two honest networks connected one after the other in every direction combination (no adversary: nothing kept from the first handshake may colour the second identity); the main roles also after a history in which the genuine X and the victim had connected in both directions and disconnected, with datagram-fate deviations over the handshake, and requests/responses whose contents name X; distinct = distinct (verdict class / role, admitted)".into(),
+            rule: "verifier layer: honest, replayed, re-signed, non-Ed25519, expired, not-yet-valid, wrong-EKU, wrong-name, concatenated certificates, every truncation and every single-byte substitution (5 values quick / all 255 thorough) of a valid certificate, offered to the client verifier, the server verifier (with and without an attached intermediate, pinned to X and to Y) and peer_id_from_certificate, against a ring + x509-parser reference; handshake-signature verifiers on all 65536 scheme codes x {right, wrong key}, every single-bit flip of a valid signature and every single-byte change of the message, for all three verifier types; system layer: adversary role {dials, is dialed, is dialed with pin X, with pin Y, is dialed with pin Y (or none) and then - with or without a disconnect in between - with pin X} x 9 presented identities x {complete, stall before the acknowledgement, close early}, two honest networks connected one after the other in every direction combination (calls between them also with a request object that already carries another identity's connection metadata among its extensions, as a relay's does) (no adversary: nothing kept from the first handshake may colour the second identity); the main roles also after a history in which the genuine X and the victim had connected in both directions and disconnected, with datagram-fate deviations over the handshake, and requests/responses whose contents name X; distinct = distinct (verdict class / role, admitted)".into(),
             assumptions: vec!["three fixed key pairs (victim, X, adversary Y); ring's Ed25519 and x509-parser are the trusted reference".into()],
             exhaustive: true,
         }
